@@ -294,6 +294,7 @@ func genC16(r *Rng, e *Emitter, n int) {
 		}
 		e.tally("kind=" + kind)
 		b := a.clone()
+		c16sides = [2]c16obj{a, b}
 		obs := []string{"(" + a.snap() + " " + b.snap() + ")"}
 		var muts []string
 		nops := r.Intn(9)
@@ -313,6 +314,8 @@ func genC16(r *Rng, e *Emitter, n int) {
 			"("+strings.Join(obs, " ")+")")
 	}
 }
+
+var c16sides [2]c16obj
 
 func flipBit(c geom.Coord) {
 	for i := range c {
@@ -434,6 +437,34 @@ func c16mutate(r *Rng, e *Emitter, kind string, l geom.Layout, o c16obj, last bo
 			fs := sxFloatsOpt(flat)
 			e.tally("mut=setCoords")
 			switch gg := g.(type) {
+			case *geom.Point:
+				// restored from the other side's own storage (snapshot / restore), or set from a coordinate
+				// the caller then goes on using: the point holds the values, not the caller's array
+				if s == 0 {
+					return ""
+				}
+				var c geom.Coord
+				for _, side := range c16sides {
+					if og, ok := side.(*c16geom); ok && og != v && len(og.g.FlatCoords()) == s && s > 0 {
+						c = og.g.FlatCoords()
+					}
+				}
+				own := c == nil || r.chance(1, 3)
+				if own {
+					c = make(geom.Coord, s)
+					copy(c, r.genCoord(s))
+				}
+				fs := sxFloatsOpt(c)
+				if _, err := gg.SetCoords(c); err != nil {
+					return ""
+				}
+				if own {
+					for i := range c {
+						c[i] = -12345
+					}
+				}
+				e.tally("mut=setCoords-point")
+				return fmt.Sprintf("(setCoords %s nil)", fs)
 			case *geom.LineString:
 				gg.SetCoords(cs)
 				return fmt.Sprintf("(setCoords %s nil)", fs)
